@@ -3,7 +3,7 @@ import e2
 from props import c03rdybytes
 
 TIE = ["Nsq.Tie.Chan", "Nsq.Tie.ChanFunc"] + c03rdybytes.TIE
-PROPS = ["Nsq.Props.C03", "Nsq.Props.C03Pump", "Nsq.Props.C03Pause", "Nsq.Props.C03Guard", "Nsq.Props.C03PumpBytes"] + c03rdybytes.PROPS
+PROPS = ["Nsq.Props.C03", "Nsq.Props.C03Pump", "Nsq.Props.C03Pause", "Nsq.Props.C03Guard", "Nsq.Props.C03PumpBytes", "Nsq.Props.C03Bound"] + c03rdybytes.PROPS
 
 
 def run(ctx):
